@@ -159,6 +159,34 @@ def step (s : St) : Op → St
 
 def run (s : St) (ops : List Op) : St := ops.foldl step s
 
+/-- The public calls of a write transaction that go through the `tables` lock. Every call that
+hands out a table or changes the catalog runs `TableNamespace::set_dirty` (transactions.rs:
+`open_table`, `open_multimap_table`, `rename_table`, `rename_multimap_table`, `delete_table`,
+`delete_multimap_table`); the correspondence run parks and orders each of them against
+`ephemeral_savepoint` (harness/src/mt.rs, `Dirtier`). -/
+inductive Call where
+  | openTable | openMultimapTable | deleteTable | renameTable | deleteMultimapTable | renameMultimapTable
+  | ephemeralSavepoint
+deriving DecidableEq, Repr
+
+def Call.op : Call → Op
+  | .ephemeralSavepoint => .ephemeralSavepoint
+  | _ => .setDirty
+
+def Call.dirtying (c : Call) : Bool := c != .ephemeralSavepoint
+
+def Call.ofName (n : String) : Option Call :=
+  if n = "open_table" then some .openTable
+  else if n = "open_multimap_table" then some .openMultimapTable
+  else if n = "delete_table" then some .deleteTable
+  else if n = "rename_table" then some .renameTable
+  else if n = "delete_multimap_table" then some .deleteMultimapTable
+  else if n = "rename_multimap_table" then some .renameMultimapTable
+  else if n = "ephemeral_savepoint" then some .ephemeralSavepoint
+  else none
+
+def runCalls (s : St) (cs : List Call) : St := run s (cs.map Call.op)
+
 /-- without the lock: check and registration are separately schedulable -/
 inductive UOp where
   | setDirty
